@@ -77,7 +77,7 @@ TraceInit ==
   /\ opi = [a \in Actors |-> 1]
   /\ att = [a \in Actors |-> 0]
   /\ loc = [a \in Actors |-> EmptyLoc]
-  /\ faults = 0
+  /\ faults = 99
   /\ armed = [a \in Actors |-> "none"]
   /\ commitLog = <<>>
   /\ LET b == InitCurBody IN
@@ -121,6 +121,16 @@ TrWriteMarker ==
   /\ IF ev.tcls = "data" THEN WriteMarkerD(A, ev.f) ELSE WriteMarkerM(A, ev.f)
 
 TrWriteData == IsEv("WriteData") /\ ev.ok /\ WriteData(A, ev.f)
+TrCommitStart == IsEv("CommitStart") /\ CommitStart(A)
+TrFinish == IsEv("Finish") /\ Finish(A)
+
+\* an injected fault: the failing branch the model takes must be the one the code takes (the
+\* following events are checked against it).  Failures of best-effort steps are swallowed.
+TrFault ==
+  /\ IsEv("Fault")
+  /\ IF pc[A] \in {"rollback", "c_cleanup"} /\ ev.when # "async"
+     THEN IF ev.cls = "marker" THEN SkipMarker(A, ev.f) ELSE SkipRollbackData(A, ev.f)
+     ELSE Fault(A, ev.when)
 
 \* existence probes: a positive answer is a stutter that must agree with the model's storage;
 \* during validate_data_files it is the CheckData step; a negative answer takes the failing branch.
@@ -190,6 +200,7 @@ TrBackoff == IsEv("Backoff") /\ Backoff(A)
 
 TrDeleteMarker ==
   /\ IsEv("DeleteMarker")
+  /\ ev.ok
   /\ IF pc[A] = "c_cleanup" THEN DeleteMarker(A, ev.f) ELSE RollbackDeleteMarker(A, ev.f)
 
 TrDeleteFile == IsEv("DeleteFile") /\ ev.ok /\ RollbackDeleteData(A, ev.f)
@@ -203,7 +214,7 @@ TrRet ==
                                                ELSE ev.count = Cardinality(loc[A].rfiles)
      ELSE IF ev.res = "ok" THEN ReturnOk(A)
      ELSE IF ev.res = "false" THEN Stutter      \* delete_snapshot of an absent snapshot: DsResolve already returned
-     ELSE ReturnErr(A) /\ (ev.res = "cme" <=> loc[A].err = "cme")
+     ELSE (IF pc[A] = "rollback" THEN ReturnErrLeaving(A) ELSE ReturnErr(A)) /\ ev.res = loc[A].err
 
 TrTick == IsEv("Tick") /\ clock' = ev.val /\ ev.val >= clock
           /\ UNCHANGED <<storageVars, lockHolder, rlock, actorVars, faults, armed, ghostVars>>
@@ -220,6 +231,7 @@ TrObserve ==
   /\ Stutter
 
 TraceNext ==
+  \/ TrCommitStart \/ TrFinish \/ TrFault
   \/ TrBegin \/ TrResolve \/ TrWriteMarker \/ TrWriteData \/ TrExists \/ TrRead \/ TrWriteMan \/ TrWriteList
   \/ TrNow \/ TrTLock \/ TrTUnlock \/ TrLockTry \/ TrDUnlock \/ TrWriteMeta \/ TrFence \/ TrFlipHint
   \/ TrBackoff \/ TrDeleteMarker \/ TrDeleteFile \/ TrRet \/ TrTick \/ TrObserve
@@ -237,7 +249,7 @@ TraceSpec == TraceInit /\ [][TraceNext]_tvars
 InvTable == << <<"TypeOK", TypeOK>>, <<"Serializable", Serializable>>, <<"LinearChain", LinearChain>>,
                <<"AckedOnce", AckedOnce>>, <<"NoDoubleCommit", NoDoubleCommit>>,
                <<"ReachablePresent", ReachablePresent>>, <<"FlipReplacesValidated", FlipReplacesValidated>>,
-               <<"NoLiveDelete", NoLiveDelete>>, <<"ReadIsSnapshot", ReadIsSnapshot>>, <<"ReadsMonotone", ReadsMonotone>> >>
+               <<"NoLiveDelete", NoLiveDelete>>, <<"NoDeleteOnAmbiguous", NoDeleteOnAmbiguous>>, <<"ReadIsSnapshot", ReadIsSnapshot>>, <<"ReadsMonotone", ReadsMonotone>> >>
 ViolatedNow == {i \in 1..Len(InvTable) : ~InvTable[i][2]}
 
 ASSUME TLCSet(2, [t \in 1..NT |-> 0]) /\ TLCSet(3, [t \in 1..NT |-> <<0, "">>])
